@@ -370,7 +370,9 @@ def run(ctx):
             t = T.inline_calls(t, resolver, src)
             # the bytes of a String/&str are what its Display writes
             t = T.variant_eq_as_match(t)          # `x == Enum::V` and `matches!(x, Enum::V)` are one case variable
-            t = T.str_bytes_as_display(t, lambda text, node, v=v: field_type(prog, None, v, text) in STR_TYPES if re.match(r"^\$(\.\w+)+$", text) else False)
+            # ... and the UTF-8 encoding of a char (encode_utf8 into a buffer of >= 4 bytes, to_string) is what its Display writes
+            t = T.str_bytes_as_display(t, lambda text, node, v=v: field_type(prog, None, v, text) in STR_TYPES if re.match(r"^\$(\.\w+)+$", text) else False,
+                                       is_char=lambda text, node, v=v: field_type(prog, None, v, text) == "char" if re.match(r"^\$(\.\w+)+$", text) else False)
         except T.Unsupported as e:
             ctx.instance("TEMPLATE", {"variant": v})
             ctx.instance("COMPLETE", {"variant": v})
